@@ -99,6 +99,7 @@ type opDesc struct {
 	isNew  bool     // the method allocates its output
 	aDegs  []int    // degrees generated for op0
 	noBFV  bool
+	impl   string // name used in failure keys when several exported methods share one implementation (default scheme.name)
 	// natural returns degree and level of the result as the corresponding New-method would allocate it
 	natural func(e *env, a *rlwe.Ciphertext, b any, arg [3]int) (int, int)
 	call    func(w *world, a *rlwe.Ciphertext, b any, out *rlwe.Ciphertext, arg [3]int) (*rlwe.Ciphertext, error)
@@ -281,6 +282,10 @@ func (e *env) mkOperand(s OpdSpec, rng *h.SplitMix) any {
 		vlen = s.Len
 	}
 	switch s.Kind {
+	case "lt":
+		return e.mkLT(s, rng)
+	case "poly":
+		return e.mkPoly(s, rng)
 	case "ct":
 		return e.mkCt(s.CtSpec, rng)
 	case "pt":
@@ -531,7 +536,11 @@ func (c *EvalCase) run(e *env, o *opDesc, aliasOn, histOn, dirtyOn bool) (res ou
 			a := e.mkCt(CtSpec{Deg: ho.aDegs[0]}, rng)
 			var b any
 			if ho.binary {
-				b = e.mkOperand(OpdSpec{Kind: hop.Kind, CtSpec: CtSpec{Deg: 1}, Val: 7}, rng)
+				hs := OpdSpec{Kind: hop.Kind, CtSpec: CtSpec{Deg: 1}, Val: 7}
+				if hop.Kind == "lt" {
+					hs.Val, hs.Len = hop.Arg[2], hop.Arg[1]
+				}
+				b = e.mkOperand(hs, rng)
 			}
 			var out *rlwe.Ciphertext
 			if ho.acc {
@@ -718,7 +727,17 @@ func runEval(c EvalCase, rec *h.Rec) error {
 	dirty := c.dirtyOut(o, al)
 	hist := len(c.Hist) > 0 || c.Poison != 0
 	opName := c.Scheme + "." + c.Op
-	prefix := "C09:" + opName + ":" + kindClass(kind)
+	// keyOp names the implementation the call ends up in: one root cause = one key, whatever wrapper reached it
+	keyOp := opName
+	if o.impl != "" {
+		keyOp = o.impl
+	} else if o.isNew {
+		keyOp = strings.TrimSuffix(opName, "New")
+	}
+	if strings.HasSuffix(keyOp, ".MulRelinThenAdd") && kind != "ct" {
+		keyOp = strings.TrimSuffix(keyOp, "MulRelinThenAdd") + "MulThenAdd" // MulRelinThenAdd forwards every non-ciphertext operand
+	}
+	prefix := "C09:" + keyOp + ":" + kindClass(kind)
 
 	rec.Class("scheme=" + c.Scheme)
 	rec.Class("op=" + opName)
@@ -740,7 +759,7 @@ func runEval(c EvalCase, rec *h.Rec) error {
 
 	// (a) inputs intact -------------------------------------------------------------------------------------------
 	if len(B.mutated) > 0 {
-		key := "C09:" + opName + ":" + kind + ":input-mutated:" + strings.Join(B.mutated, "+")
+		key := "C09:" + keyOp + ":" + kind + ":input-mutated:" + strings.Join(B.mutated, "+")
 		msg := fmt.Sprintf("%s with distinct operands, brand-new evaluator and fresh output changed %v: %s", opName, B.mutated, B.detail)
 		if !rec.Known(key, msg) {
 			return h.Failf(key, "%s", msg)
@@ -755,7 +774,7 @@ func runEval(c EvalCase, rec *h.Rec) error {
 				cause = aliasNames[al]
 			}
 		}
-		key := "C09:" + opName + ":" + kind + ":" + cause + ":input-mutated:" + strings.Join(A.mutated, "+")
+		key := "C09:" + keyOp + ":" + kind + ":" + cause + ":input-mutated:" + strings.Join(A.mutated, "+")
 		msg := fmt.Sprintf("%s (alias %s, history %d, poison %d, reused out %v) changed %v: %s", opName, aliasNames[al], len(c.Hist), c.Poison, dirty, A.mutated, A.detail)
 		if !rec.Known(key, msg) {
 			return h.Failf(key, "%s", msg)
@@ -781,6 +800,7 @@ func runEval(c EvalCase, rec *h.Rec) error {
 	}
 	if B.err != nil {
 		rec.Class("result=reference-rejected")
+		rec.Class("reference-rejected:" + opName + ":" + trunc(B.err.Error(), 70))
 		return nil
 	}
 	if A.err != nil {
@@ -788,11 +808,31 @@ func runEval(c EvalCase, rec *h.Rec) error {
 		return nil
 	}
 
+	// A reused output of larger degree than the result may keep its degree when the additional terms are zero: the
+	// ciphertext is the same ring element vector padded with zeros (what matchScaleThenEvaluateInPlace does on purpose).
+	padded := false
+	stripZeroTail := func(x elSnap) elSnap {
+		if !dirty || x.Nil || B.out.Nil || len(x.Coeffs) <= len(B.out.Coeffs) {
+			return x
+		}
+		for _, poly := range x.Coeffs[len(B.out.Coeffs):] {
+			for _, limb := range poly {
+				for _, v := range limb {
+					if v != 0 {
+						return x
+					}
+				}
+			}
+		}
+		padded = true
+		x.Coeffs = x.Coeffs[:len(B.out.Coeffs)]
+		return x
+	}
 	d := ""
 	if A.pan != "" {
 		d = "panic: " + A.pan
 	} else {
-		d = diffEl(A.out, B.out)
+		d = diffEl(stripZeroTail(A.out), B.out)
 	}
 	if d != "" {
 		differs := func(x outcome) string {
@@ -802,7 +842,7 @@ func runEval(c EvalCase, rec *h.Rec) error {
 			if x.err != nil {
 				return "" // rejected: not a wrong result
 			}
-			return diffEl(x.out, B.out)
+			return diffEl(stripZeroTail(x.out), B.out)
 		}
 		cause, sym := "", ""
 		if al != 0 {
@@ -861,6 +901,9 @@ func runEval(c EvalCase, rec *h.Rec) error {
 	}
 
 	rec.Class("result=identical")
+	if padded {
+		rec.Class("result=identical-up-to-zero-terms-of-a-larger-reused-output")
+	}
 	if al != 0 || hist || dirty || (o.binary && kind != "ct") {
 		lv := "lvl-eq"
 		if o.binary && isElementKind(kind) && c.A.Drop != c.B.Drop {
